@@ -15,3 +15,7 @@ def run(ctx):
                       assumptions=['exact arithmetic: theorems are about integer-scaled scores; float32 rounding of arbitrary log-probabilities is outside the model',
                                    'libstdc++ tie-breaking among equal priorities is abstracted: theorems hold for every maximal-priority pop, the hook supplies the actual order',
                                    'theorems with dedup (1-best) need a head-uniform grammar and unary penalty >= 0'])
+
+
+def replay(data):
+    return astar_checks.replay(data, 'c01')
